@@ -15,10 +15,10 @@ Lemma orelse_returns a b : returns a -> returns (b tt) -> returns (orelse a b).
 Proof. intros [v ->] Hb. destruct v; cbn; auto with c18. Qed.
 
 Lemma via_b58_returns b58 f s : (forall d, returns (f d)) -> returns (via_b58 b58 f s).
-Proof. intros H. unfold via_b58. destruct (b58 s); auto with c18. Qed.
+Proof. intros H. unfold via_b58. destruct (b58c b58 s); auto with c18. Qed.
 
 Lemma via_bech32_returns bech32 f s : (forall v, returns (f v)) -> returns (via_bech32 bech32 f s).
-Proof. intros H. unfold via_bech32. destruct (bech32 s); auto with c18. Qed.
+Proof. intros H. unfold via_bech32. destruct (bech32c bech32 s); auto with c18. Qed.
 
 Lemma first_of_returns fs s : (forall f, In f fs -> returns (f s)) -> returns (first_of fs s).
 Proof.
@@ -134,8 +134,8 @@ Qed.
 
 Local Opaque curve_p curve_a curve_b curve_n Z.pow Z.modulo Z.mul Z.add Z.sub Z.land.
 Section Total.
-Variable b58 : text -> option bytes.
-Variable bech32 : text -> option (text * Z * bytes * bool).
+Variable b58 : text -> outcome (option bytes).
+Variable bech32 : text -> outcome (option (text * Z * bytes * bool)).
 Variable int10 int16 : text -> option Z.
 Variable compile : text -> option bytes.
 Variable hmac512 : bytes -> bytes.
@@ -426,8 +426,8 @@ Proof.
 Qed.
 
 Section TotalSeeds.
-Variable b58 : text -> option bytes.
-Variable bech32 : text -> option (text * Z * bytes * bool).
+Variable b58 : text -> outcome (option bytes).
+Variable bech32 : text -> outcome (option (text * Z * bytes * bool)).
 Variable int10 int16 : text -> option Z.
 Variable compile : text -> option bytes.
 Variable hmac512 : bytes -> bytes.
@@ -884,14 +884,14 @@ Qed.
 (* ---------------------------------------------------------------------------------------------- *)
 (* text level: for EVERY decoder/encoder pair with decode (encode d) = Some d *)
 Section TextLevel.
-Variable b58 : text -> option bytes.
+Variable b58 : text -> outcome (option bytes).
 Variable b58enc : bytes -> text.
-Hypothesis Hrt : forall d, b58 (b58enc d) = Some d.
+Hypothesis Hrt : forall d, b58c b58 (b58enc d) = Some d.
 Variable mulG : Z -> Z * Z.
 Variable modsqrt : Z -> Z.
 
-Lemma via_b58_inv f s o : via_b58 b58 f s = Ret (Some o) -> exists d, b58 s = Some d /\ f d = Ret (Some o).
-Proof. unfold via_b58. destruct (b58 s) as [d|]; [|discriminate]. eauto. Qed.
+Lemma via_b58_inv f s o : via_b58 b58 f s = Ret (Some o) -> exists d, b58c b58 s = Some d /\ f d = Ret (Some o).
+Proof. unfold via_b58. destruct (b58c b58 s) as [d|]; [|discriminate]. eauto. Qed.
 
 Lemma via_b58_enc f d : via_b58 b58 f (b58enc d) = f d.
 Proof. unfold via_b58. rewrite Hrt. reflexivity. Qed.
@@ -1054,7 +1054,7 @@ Proof. vm_compute. reflexivity. Qed.
 Definition w_hd_payload : bytes :=
   [x04; x88; xb2; x1e] ++ repeatb x00 (1 + 4 + 4 + 32) ++ [x00] ++ repeatb x00 31 ++ [x01].
 Lemma w_hd_pub_gives_private :
-  hd_pub (fun _ => Some w_hd_payload) mulG_w modsqrt_real btc_cfg Bip32 [] =
+  hd_pub (fun _ => Ret (Some w_hd_payload)) mulG_w modsqrt_real btc_cfg Bip32 [] =
   Ret (Some (OHd Bip32 0 [x00; x00; x00; x00] 0 (repeatb x00 32) (Prv 1 (curve_gx, curve_gy)))).
 Proof. vm_compute. reflexivity. Qed.
 
@@ -1187,7 +1187,7 @@ Proof. split. apply p2pkh_reserialize. apply p2sh_reserialize. Qed.
 Lemma wif_reserialize' mulG net d o : wif_of_payload mulG net d = Ret (Some o) -> wif_payload net o = Some d.
 Proof. exact (wif_reserialize mulG (fun _ => 0) net d o). Qed.
 
-Lemma text_reserialize b58 b58enc : (forall d, b58 (b58enc d) = Some d) ->
+Lemma text_reserialize b58 b58enc : (forall d, b58c b58 (b58enc d) = Some d) ->
   forall mulG modsqrt net s o,
   (p2pkh b58 net s = Ret (Some o) -> exists d, p2pkh_payload net o = Some d /\ p2pkh b58 net (b58enc d) = Ret (Some o)) /\
   (p2sh b58 net s = Ret (Some o) -> exists d, p2sh_payload net o = Some d /\ p2sh b58 net (b58enc d) = Ret (Some o)) /\
@@ -1217,7 +1217,7 @@ Qed.
 Lemma hd_pub_not_public :
   ~ (forall b58 mulG modsqrt net kind s o, hd_pub b58 mulG modsqrt net kind s = Ret (Some o) -> obj_is_private o = false).
 Proof.
-  intros H. pose proof (H (fun _ => Some w_hd_payload) mulG_w modsqrt_real btc_cfg Bip32 [] _ w_hd_pub_gives_private) as R.
+  intros H. pose proof (H (fun _ => Ret (Some w_hd_payload)) mulG_w modsqrt_real btc_cfg Bip32 [] _ w_hd_pub_gives_private) as R.
   discriminate.
 Qed.
 
@@ -1425,4 +1425,25 @@ Lemma electrum_reserialize stretch mulG net s o :
      exists t, electrum_text o = Ret t /\ electrum_pub net t = Ret (Some o)).
 Proof.
   split; [|split]. apply electrum_seed_reserialize. eapply electrum_prv_reserialize; exact stretch. eapply electrum_pub_reserialize; [exact stretch | exact mulG].
+Qed.
+
+(* ---------------------------------------------------------------------------------------------- *)
+(* parseable_str.cache: whatever class of exception a decoder raises, the parsers see None *)
+Lemma ps_cache_swallows {A} (f : text -> outcome (option A)) s e : f s = Raise e -> ps_cache f s = None.
+Proof. unfold ps_cache. intros ->. reflexivity. Qed.
+
+Lemma decoder_raises_gives_none b58 bech32 net s e e' :
+  b58 s = Raise e -> bech32 s = Raise e' ->
+  address b58 bech32 net s = Ret None /\ p2pkh b58 net s = Ret None /\ p2sh b58 net s = Ret None /\
+  p2pkh_segwit bech32 net s = Ret None /\ p2sh_segwit bech32 net s = Ret None /\ p2tr bech32 net s = Ret None.
+Proof.
+  intros H1 H2.
+  assert (P1 : p2pkh b58 net s = Ret None) by (unfold p2pkh, via_b58, b58c; rewrite (ps_cache_swallows _ _ _ H1); reflexivity).
+  assert (P2 : p2sh b58 net s = Ret None) by (unfold p2sh, via_b58, b58c; rewrite (ps_cache_swallows _ _ _ H1); reflexivity).
+  assert (P3 : p2pkh_segwit bech32 net s = Ret None) by (unfold p2pkh_segwit, via_bech32, bech32c; rewrite (ps_cache_swallows _ _ _ H2); reflexivity).
+  assert (P4 : p2sh_segwit bech32 net s = Ret None) by (unfold p2sh_segwit, via_bech32, bech32c; rewrite (ps_cache_swallows _ _ _ H2); reflexivity).
+  assert (P5 : p2tr bech32 net s = Ret None) by (unfold p2tr, via_bech32, bech32c; rewrite (ps_cache_swallows _ _ _ H2); reflexivity).
+  repeat split; auto.
+  unfold address, disabled_or, address_body. destruct (n_disabled net); [reflexivity|].
+  rewrite P1, P2, P3, P4, P5. reflexivity.
 Qed.
